@@ -38,6 +38,21 @@ CLAIMS = {
         "objects per zone. Correspondence: zone of every stream, set of tree nodes and content of every zone, 390+ cases per run.",
    technique="Lean 4 proof (builder invariant by induction over the streams + counting induction over tree depth) + correspondence testing + multiset oracle on prepare_problem",
    design="§6 C10"),
+ "C11": dict(
+   text="Partial proof (Lean 4). The part of the property that is a fact about code structure is regenerated from the live package "
+        "on every run and decided by the kernel: mutable_defaults_known (the list of ALL functions/methods of OpenPinch whose "
+        "default argument values are mutable objects - cells persisting between calls - contains only three read-only ones), "
+        "graph_default_not_mutable; on top of that fact the model of the service's call-to-call state gives history_independent "
+        "(for every history the graph-set keys of every call equal those of a fresh call) and world_unchanged (induction over the "
+        "history); mutable_default_leaks shows the same model violating the property with a mutable default (the defect repaired "
+        "by d508d52). NOT provable in this setting (the service is ~5k lines of Python over numpy/pydantic): equality of complete "
+        "results with a fresh process, unchanged caller input, unchanged earlier results, unchanged module state. These are "
+        "decided by the oracle: every history (2-7 calls mixing service-on-dict, service-on-new-model, service-on-one-reused-model "
+        "and a reused PinchProblem wrapper over a pool of problems with different zone names) runs in ONE fresh interpreter and "
+        "every call's canonical JSON is compared with the result of the same problem run alone in a fresh interpreter; a snapshot "
+        "of all module-level containers, class attributes and default-argument objects of the package is compared around every call.",
+   technique="Lean 4 proof over facts translated from the live package (mutable default arguments) + fresh-interpreter differential oracle over call histories",
+   design="§6 C11"),
  "C17": dict(
    text="Partial proof (Lean 4) about the code-shaped model of _rdp (stack ranges as a recursion with fuel = number of points, "
         "first-maximum scan with strict >, zero-length chord `continue`) for polylines of ANY length and ANY tolerance: rdp_ends "
